@@ -34,6 +34,7 @@ import (
 	"strings"
 	"sync"
 	"sync/atomic"
+	"syscall"
 	"time"
 
 	"github.com/mitchellh/copystructure"
@@ -340,6 +341,14 @@ func runSpec(sp *Spec) Result {
 	return Result{Hash: hex.EncodeToString(h[:10]), Class: class, N: len(out), Ms: time.Since(t).Milliseconds(), out: out}
 }
 
+func cpuMs() int64 {
+	var ru syscall.Rusage
+	if err := syscall.Getrusage(syscall.RUSAGE_SELF, &ru); err != nil {
+		return 0
+	}
+	return (ru.Utime.Sec+ru.Stime.Sec)*1000 + int64(ru.Utime.Usec+ru.Stime.Usec)/1000
+}
+
 // ---------------------------------------------------------------- tables
 
 func loadSpecs(path string) ([]*Spec, map[string]*Spec) {
@@ -608,7 +617,10 @@ func main() {
 		raw, _ := io.ReadAll(os.Stdin)
 		sp := &Spec{}
 		kit.Unmarshal(raw, sp)
-		b, _ := json.Marshal(runSpec(sp))
+		c0 := cpuMs()
+		r := runSpec(sp)
+		r.Ms = cpuMs() - c0 // CPU time of the process, not wall time: the cost filter must not depend on the machine load
+		b, _ := json.Marshal(r)
 		fmt.Println(string(b))
 	case "vet":
 		var jobs [][]byte
